@@ -399,9 +399,169 @@ func main() {
 			os.Exit(2)
 		}
 	}
+	if !genZkTiming(*repo, *out) {
+		bad = true
+	}
 	if bad {
 		os.Exit(2)
 	}
+}
+
+// ---- the coordination client's time-outs -------------------------------------------------------------
+// (*zk.Conn).setTimeouts of the go-zookeeper version /repo's go.mod requires: straight-line integer assignments,
+// translated into one Lean definition that returns the two fields C03's timing lemma talks about.
+
+func genZkTiming(repo, out string) bool {
+	const mod = "github.com/go-zookeeper/zk"
+	gm, err := os.ReadFile(filepath.Join(repo, "go.mod"))
+	if err != nil {
+		fmt.Fprintln(os.Stderr, "gen: zk timing:", err)
+		return false
+	}
+	ver := ""
+	for _, line := range strings.Split(string(gm), "\n") {
+		f := strings.Fields(line)
+		for i := range f {
+			if f[i] == mod && i+1 < len(f) {
+				ver = f[i+1]
+			}
+		}
+	}
+	if ver == "" {
+		fmt.Fprintln(os.Stderr, "gen: zk timing: go.mod does not require", mod)
+		return false
+	}
+	cache := os.Getenv("GOMODCACHE")
+	if cache == "" {
+		gp := os.Getenv("GOPATH")
+		if gp == "" {
+			home, _ := os.UserHomeDir()
+			gp = filepath.Join(home, "go")
+		}
+		cache = filepath.Join(gp, "pkg", "mod")
+	}
+	file := filepath.Join(cache, mod+"@"+ver, "conn.go")
+	fset := token.NewFileSet()
+	f, err := parser.ParseFile(fset, file, nil, 0)
+	if err != nil {
+		fmt.Fprintln(os.Stderr, "gen: zk timing:", err)
+		return false
+	}
+	var fd *ast.FuncDecl
+	for _, d := range f.Decls {
+		if x, ok := d.(*ast.FuncDecl); ok && x.Name.Name == "setTimeouts" && x.Recv != nil {
+			fd = x
+		}
+	}
+	if fd == nil || len(fd.Type.Params.List) != 1 || len(fd.Type.Params.List[0].Names) != 1 {
+		fmt.Fprintln(os.Stderr, "gen: zk timing: (*Conn).setTimeouts(x) not found in", file)
+		return false
+	}
+	param := fd.Type.Params.List[0].Names[0].Name
+	recv := fd.Recv.List[0].Names[0].Name
+	ok := true
+	var ex func(e ast.Expr) string
+	ex = func(e ast.Expr) string {
+		switch x := e.(type) {
+		case *ast.ParenExpr:
+			return ex(x.X)
+		case *ast.BasicLit:
+			if x.Kind == token.INT {
+				return "(" + x.Value + " : Int)"
+			}
+		case *ast.Ident:
+			return x.Name
+		case *ast.SelectorExpr:
+			if id, isID := x.X.(*ast.Ident); isID {
+				if id.Name == recv {
+					return x.Sel.Name // a field assigned earlier in this function
+				}
+				if id.Name == "time" {
+					switch x.Sel.Name {
+					case "Nanosecond":
+						return "(1 : Int)"
+					case "Microsecond":
+						return "(1000 : Int)"
+					case "Millisecond":
+						return "(1000000 : Int)"
+					case "Second":
+						return "(1000000000 : Int)"
+					}
+				}
+			}
+		case *ast.CallExpr:
+			// conversions to an integer type
+			if len(x.Args) == 1 {
+				switch fn := x.Fun.(type) {
+				case *ast.SelectorExpr:
+					if id, isID := fn.X.(*ast.Ident); isID && id.Name == "time" && fn.Sel.Name == "Duration" {
+						return ex(x.Args[0])
+					}
+				case *ast.Ident:
+					if fn.Name == "int64" || fn.Name == "int32" || fn.Name == "int" {
+						return ex(x.Args[0])
+					}
+				}
+			}
+		case *ast.BinaryExpr:
+			l, r := ex(x.X), ex(x.Y)
+			switch x.Op {
+			case token.ADD:
+				return "(" + l + " + " + r + ")"
+			case token.SUB:
+				return "(" + l + " - " + r + ")"
+			case token.MUL:
+				return "(" + l + " * " + r + ")"
+			case token.QUO:
+				return "(Int.tdiv " + l + " " + r + ")"
+			}
+		}
+		ok = false
+		fmt.Fprintf(os.Stderr, "gen: zk timing: untranslatable expression at %s\n", fset.Position(e.Pos()))
+		return "0"
+	}
+	var b strings.Builder
+	fmt.Fprintf(&b, "-- GENERATED by /verif/gen from %s@%s/conn.go (*Conn).setTimeouts — do not edit; regenerated on every check run.\nnamespace Gen.ZkTiming\n\n", mod, ver)
+	b.WriteString("structure Timeouts where\n  recvTimeout : Int\n  pingInterval : Int\n  deriving Repr, DecidableEq\n\n")
+	fmt.Fprintf(&b, "/-- durations in nanoseconds, the argument in milliseconds (as the server grants it) -/\ndef setTimeouts (%s : Int) : Timeouts :=\n", param)
+	assigned := map[string]bool{}
+	for _, st := range fd.Body.List {
+		as, isAs := st.(*ast.AssignStmt)
+		if !isAs || len(as.Lhs) != 1 || len(as.Rhs) != 1 || (as.Tok != token.ASSIGN && as.Tok != token.DEFINE) {
+			ok = false
+			fmt.Fprintf(os.Stderr, "gen: zk timing: unsupported statement at %s\n", fset.Position(st.Pos()))
+			continue
+		}
+		name := ""
+		switch l := as.Lhs[0].(type) {
+		case *ast.Ident:
+			name = l.Name
+		case *ast.SelectorExpr:
+			if id, isID := l.X.(*ast.Ident); isID && id.Name == recv {
+				name = l.Sel.Name
+			}
+		}
+		if name == "" {
+			ok = false
+			fmt.Fprintf(os.Stderr, "gen: zk timing: unsupported assignment target at %s\n", fset.Position(st.Pos()))
+			continue
+		}
+		fmt.Fprintf(&b, "  let %s := %s\n", name, ex(as.Rhs[0]))
+		assigned[name] = true
+	}
+	if !assigned["recvTimeout"] || !assigned["pingInterval"] {
+		ok = false
+		fmt.Fprintln(os.Stderr, "gen: zk timing: setTimeouts does not assign recvTimeout and pingInterval")
+	}
+	b.WriteString("  { recvTimeout := recvTimeout, pingInterval := pingInterval }\n\nend Gen.ZkTiming\n")
+	if !ok {
+		return false
+	}
+	if err := os.WriteFile(filepath.Join(out, "ZkTiming.lean"), []byte(b.String()), 0o644); err != nil {
+		fmt.Fprintln(os.Stderr, "gen:", err)
+		return false
+	}
+	return true
 }
 
 // ---- structural facts ------------------------------------------------------------------------------
